@@ -298,7 +298,7 @@ class Escapes:
         return [(dotted(e) or 'Exception').split('.')[-1] for e in (h.type.elts if isinstance(h.type, ast.Tuple) else [h.type])]
 
     def site(self, f, node, what):
-        return f'{f.module.relpath}:{getattr(node, "lineno", 0)} {what} @{f.fq}'
+        return f'{f.site(node)} {what} @{f.fq}'
 
     @staticmethod
     def kind(node):
